@@ -47,6 +47,8 @@ Inductive tag :=
 | TI_parent_red      (* parent red: go to the grandparent *)
 | TI_case1_L | TI_case2_L | TI_case3_L   (* parent == gparent->left *)
 | TI_case1_R | TI_case2_R | TI_case3_R   (* parent == gparent->right *)
+| TI_case2_sub       (* case 2: node's inner child is non-null and is re-hung under parent *)
+| TI_case3_sub       (* case 3: parent's inner child is non-null and is re-hung under gparent *)
 (* remove: unlink *)
 | TU_leaf_red        (* no children, node red: nothing to adjust *)
 | TU_leaf_black      (* no children, node black: adjust at parent *)
@@ -60,10 +62,15 @@ Inductive tag :=
 (* remove_adjust *)
 | TF_case1_L | TF_case2_red_L | TF_case2_black_L | TF_case3_L | TF_case4_L
 | TF_case1_R | TF_case2_red_R | TF_case2_black_R | TF_case3_R | TF_case4_R
+| TF_case3_sub       (* case 3: the near nephew's inner child is non-null and is re-hung under sibling *)
+| TF_case4_sub       (* case 4: sibling's inner child is non-null and is re-hung under parent *)
 | TF_null_mirror     (* first iteration, node == NULL == parent->right although the hole is on the left *)
 | TF_root            (* the deficit reached the root: loop ends (parent == NULL) *)
 | TR_absent          (* remove: key not found by search *)
 | TS_found | TS_absent.
+
+(* coverage only: tag g is recorded when the re-hung subtree t is non-null (the C's `if (tmp)`) *)
+Definition sub (t : tree) (g : tag) : list tag := match t with E => [] | T _ _ _ _ _ => [g] end.
 
 (* ------------------------------------------------------------------ insertion *)
 
@@ -94,11 +101,11 @@ Definition ins_fix_left (c : color) (l' : tree) (k : Z) (i : id) (r : tree) (st 
         | L, T _ n pk pi pr =>
             (* Case 3: right rotate at gparent; parent takes gparent's word, gparent red,
                parent->right (set black) becomes gparent->left *)
-            (T c n pk pi (T Red (blacken pr) k i r), IStop, [TI_case3_L])
+            (T c n pk pi (T Red (blacken pr) k i r), IStop, TI_case3_L :: sub pr TI_case3_sub)
         | R, T _ pl pk pi (T _ nl nk ni nr) =>
             (* Case 2: left rotate at parent (node->left set black, parent red), then Case 3 *)
             (T c (T Red pl pk pi (blacken nl)) nk ni (T Red (blacken nr) k i r), IStop,
-             [TI_case2_L; TI_case3_L])
+             TI_case2_L :: TI_case3_L :: sub nl TI_case2_sub ++ sub nr TI_case3_sub)
         | _, _ => (E, IFault, [])
         end
   | IFault => (E, IFault, [])
@@ -120,10 +127,10 @@ Definition ins_fix_right (c : color) (l : tree) (k : Z) (i : id) (r' : tree) (st
       else
         match d, r' with
         | R, T _ pl pk pi n =>
-            (T c (T Red l k i (blacken pl)) pk pi n, IStop, [TI_case3_R])
+            (T c (T Red l k i (blacken pl)) pk pi n, IStop, TI_case3_R :: sub pl TI_case3_sub)
         | L, T _ (T _ nl nk ni nr) pk pi pr =>
             (T c (T Red l k i (blacken nl)) nk ni (T Red (blacken nr) pk pi pr), IStop,
-             [TI_case2_R; TI_case3_R])
+             TI_case2_R :: TI_case3_R :: sub nr TI_case2_sub ++ sub nl TI_case3_sub)
         | _, _ => (E, IFault, [])
         end
   | IFault => (E, IFault, [])
@@ -185,14 +192,14 @@ Definition fix_left_bs (cp : color) (n : tree) (k : Z) (i : id) (s : tree)
   | T _ sl sk si sr =>
       if is_red sr then
         (* Case 4: left rotate at parent; sibling takes parent's word, parent black, sr black *)
-        (T cp (T Black n k i sl) sk si (blacken sr), DNone, [TF_case4_L])
+        (T cp (T Black n k i sl) sk si (blacken sr), DNone, TF_case4_L :: sub sl TF_case4_sub)
       else if is_red sl then
         (* Case 3: right rotate at sibling (sl->right set black), then Case 4 with sibling = sl,
            tmp1 = old sibling (set black) *)
         match sl with
         | T _ sll slk sli slr =>
             (T cp (T Black n k i sll) slk sli (T Black (blacken slr) sk si sr), DNone,
-             [TF_case3_L; TF_case4_L])
+             TF_case3_L :: TF_case4_L :: sub slr TF_case3_sub ++ sub sll TF_case4_sub)
         | E => (E, DFault, [])
         end
       else
@@ -227,12 +234,12 @@ Definition fix_right_bs (cp : color) (s : tree) (k : Z) (i : id) (n : tree)
   | E => (E, DFault, [])
   | T _ sl sk si sr =>
       if is_red sl then
-        (T cp (blacken sl) sk si (T Black sr k i n), DNone, [TF_case4_R])
+        (T cp (blacken sl) sk si (T Black sr k i n), DNone, TF_case4_R :: sub sr TF_case4_sub)
       else if is_red sr then
         match sr with
         | T _ srl srk sri srr =>
             (T cp (T Black sl sk si (blacken srl)) srk sri (T Black srr k i n), DNone,
-             [TF_case3_R; TF_case4_R])
+             TF_case3_R :: TF_case4_R :: sub srl TF_case3_sub ++ sub srr TF_case4_sub)
         | E => (E, DFault, [])
         end
       else
